@@ -172,7 +172,15 @@ impl ServerContext {
         let cancellations = self.cancellations.clone();
 
         tokio::spawn(async move {
-            let res = exec(cancel_token.clone()).await;
+            // Run the handler in its own task: if it panics the JoinError is observed here, the
+            // client still gets a response (internal error) and the cancellation entry is removed.
+            let res = match tokio::spawn(exec(cancel_token.clone())).await {
+                Ok(res) => res,
+                Err(err) => {
+                    log::error!("request {:?} handler failed: {}", req_id, err);
+                    None
+                }
+            };
             if cancel_token.is_cancelled() {
                 let response = Response::new_err(
                     req_id.clone(),
